@@ -199,8 +199,12 @@ def prim_args(t):
     return dict(t.args)
 
 
-def valid_literals(t):
-    """Boundary literals that satisfy primitive type t (reference semantics of lang_ref's type table)."""
+RICH_STRINGS = ['a b', ' lead and trail ', 'tab\tz', 'line\nz', "it's", 'caf\u00e9 \u2603', '%s {0} {}', '#not a comment']
+
+
+def valid_literals(t, rich=False):
+    """Boundary literals that satisfy primitive type t (reference semantics of lang_ref's type table).
+    rich=True adds strings with whitespace, escapes, quotes, unicode and format-like text where the length bounds allow."""
     a = prim_args(t)
     k = t.kind
     if k in INT_RANGES:
@@ -233,6 +237,8 @@ def valid_literals(t):
             out.append('y' * hi)
         else:
             out.append('x' * lo + 'q"\\z')
+        if rich:
+            out += [x for x in RICH_STRINGS if len(x) >= lo and (hi is None or len(x) <= hi)]
         return sorted(set(out))
     if k == 'Bytes':
         return ['YWJj']
